@@ -108,6 +108,7 @@ class ProgBase(plumpy.Process):
         rec = getattr(self, '_rec', None)
         if rec is not None:
             rec.ev('hook', 'paused')
+            rec.fire('paused', self)
 
     def on_playing(self):
         super().on_playing()
